@@ -38,3 +38,152 @@ package config
 //@   ensures X1 [C01]: result2 != nil ==> result0 == nil && result1 == nil
 //@   opt safety [C01,C04,C17]
 //@   opt frame [C01]
+
+// ---------------------------------------------------------------------------
+// Parsing (C02 accept-iff and defaults, C03 range carriers).
+// Strings are abstract; time.ParseDuration, netip.ParsePrefix, netip.ParseAddr
+// are deterministic oracle functions pdOK/pdVal, ppOK/ppVal, paOK/paVal.
+
+// parseDuration: unset or "auto" -> default, "infinite" -> ndp.Infinity, "" -> 0.
+//@ macro durSpecOK(s) = s == nil || star(s) == "infinite" || star(s) == "auto" || star(s) == "" || pdOK(star(s))
+//@ macro durSpecVal(s, def) = ite(s == nil, def, ite(star(s) == "infinite", ndpInfinity, ite(star(s) == "auto", def, ite(star(s) == "", 0, pdVal(star(s))))))
+
+//@ func parseDuration
+//@   ensures E1 [C02]: (result1 == nil) == durSpecOK(s)
+//@   ensures E2 [C02]: result1 == nil ==> result0 == durSpecVal(s, def)
+//@   opt safety [C02]
+
+//@ func parsePreference
+//@   ensures E1 [C02]: (result1 == nil) == (s == "" || s == "medium" || s == "low" || s == "high")
+//@   ensures E2 [C02]: result1 == nil ==> result0 == ite(s == "low", 3, ite(s == "high", 1, 0))
+//@   ensures E3 [C03,C17]: result1 == nil ==> prefValid(result0)
+//@   opt safety [C02]
+
+// default_lifetime: 0 or within [max_interval, 9000s]; default 3 * max_interval.
+//@ func parseDefaultLifetime
+//@   requires P1: secs(4) <= max && max <= secs(1800)
+//@   ensures E1 [C02]: (result1 == nil) == (durSpecOK(s) && (durSpecVal(s, 3 * max) == 0 || (max <= durSpecVal(s, 3 * max) && durSpecVal(s, 3 * max) <= secs(9000))))
+//@   ensures E2 [C02]: result1 == nil ==> result0 == durSpecVal(s, 3 * max)
+//@   ensures E3 [C03]: result1 == nil ==> 0 <= result0 && result0 <= secs(9000)
+//@   opt safety [C02]
+
+// min_interval: 3s <= min <= 0.75*max truncated to a second; default 0.33*max
+// truncated to a second, or max when max < 9s.
+//@ macro minUpper(max) = truncSecReal(smt("0.75", "Real") * real(max))
+//@ macro minDefault(max) = ite(max >= secs(9), truncSecReal(smt("(/ 5944751508129055.0 18014398509481984.0)", "Real") * real(max)), max)
+//@ func parseMinInterval
+//@   requires P1: secs(4) <= max && max <= secs(1800)
+//@   ensures E1 [C02]: (result1 == nil) == (s == "" || s == "auto" || (pdOK(s) && secs(3) <= pdVal(s) && pdVal(s) <= minUpper(max)))
+//@   ensures E2 [C02]: result1 == nil ==> result0 == ite(s == "" || s == "auto", minDefault(max), pdVal(s))
+//@   ensures E3 [C05]: result1 == nil ==> (result0 == max || (secs(2) <= result0 && result0 < max))
+//@   opt safety [C02]
+
+// parseIPPrefix: "" -> zero prefix; otherwise a canonical (masked) IPv6, non-IPv4-mapped CIDR.
+//@ macro canon6(s) = ppOK(s) && pfxMasked(ppVal(s)) == ppVal(s) && addrIs6(pfxAddr(ppVal(s))) && !addrIs4In6(pfxAddr(ppVal(s)))
+//@ func parseIPPrefix
+//@   ensures E1 [C02]: (result1 == nil) == (s == "" || canon6(s))
+//@   ensures E2 [C02]: result1 == nil ==> result0 == ite(s == "", pfxZero, ppVal(s))
+//@   opt safety [C02]
+
+// Package-level sentinels (set by the package initialiser; assumed).
+//@ macro sentinelsOK() = autoPrefix == ppVal("::/64") && pfxValid(autoPrefix) && pfxBits(autoPrefix) == 64 && addrIsUnspecified(pfxAddr(autoPrefix)) && !pfxIsSingleIP(autoPrefix) && pfxMasked(autoPrefix) == autoPrefix && autoRoute == ppVal("::/0") && pfxValid(autoRoute) && pfxBits(autoRoute) == 0 && addrIsUnspecified(pfxAddr(autoRoute)) && !pfxIsSingleIP(autoRoute) && pfxMasked(autoRoute) == autoRoute
+
+// prefix stanza (C02 P1): canonical IPv6 CIDR or "" (= ::/64); not a /128; the
+// unspecified address only as ::/64; 0 < preferred <= valid <= infinite;
+// deprecated implies finite.
+//@ macro prefixOf(s) = ite(s == "", autoPrefix, ppVal(s))
+//@ macro prefixAccept(p) = (p.Prefix == "" || canon6(p.Prefix)) && !pfxIsSingleIP(prefixOf(p.Prefix)) && (addrIsUnspecified(pfxAddr(prefixOf(p.Prefix))) ==> pfxBits(prefixOf(p.Prefix)) == 64) && durSpecOK(p.ValidLifetime) && durSpecOK(p.PreferredLifetime) && 0 < durSpecVal(p.PreferredLifetime, secs(14400)) && durSpecVal(p.PreferredLifetime, secs(14400)) <= durSpecVal(p.ValidLifetime, secs(86400)) && durSpecVal(p.ValidLifetime, secs(86400)) <= ndpInfinity && (p.Deprecated ==> durSpecVal(p.ValidLifetime, secs(86400)) != ndpInfinity && durSpecVal(p.PreferredLifetime, secs(14400)) != ndpInfinity)
+
+//@ func parsePrefix
+//@   requires G1: sentinelsOK()
+//@   assigns new heap(plugin.Prefix)
+//@   ensures E1 [C02]: (result1 == nil) == prefixAccept(p)
+//@   ensures E2 [C02]: result1 == nil ==> result0 != nil && fresh(result0) && result0.Prefix == prefixOf(p.Prefix) && result0.Auto == (prefixOf(p.Prefix) == autoPrefix) && result0.OnLink == ite(p.OnLink == nil, true, star(p.OnLink)) && result0.Autonomous == ite(p.Autonomous == nil, true, star(p.Autonomous)) && result0.ValidLifetime == durSpecVal(p.ValidLifetime, secs(86400)) && result0.PreferredLifetime == durSpecVal(p.PreferredLifetime, secs(14400)) && result0.Deprecated == p.Deprecated && result0.Epoch == epoch
+//@   ensures E3 [C03]: result1 == nil ==> lifetimeOK(result0.ValidLifetime) && lifetimeOK(result0.PreferredLifetime) && result0.PreferredLifetime <= result0.ValidLifetime && 0 <= pfxBits(result0.Prefix) && pfxValid(result0.Prefix)
+//@   ensures E4 [C02]: result1 != nil ==> result0 == nil
+//@   opt safety [C02]
+//@   opt frame [C02]
+
+// route stanza (C02 R1)
+//@ macro routeOf(s) = ite(s == "", autoRoute, ppVal(s))
+//@ macro prefStrOK(s) = s == "" || s == "medium" || s == "low" || s == "high"
+//@ macro routeAccept(r) = (r.Prefix == "" || canon6(r.Prefix)) && (addrIsUnspecified(pfxAddr(routeOf(r.Prefix))) ==> pfxBits(routeOf(r.Prefix)) == 0) && prefStrOK(r.Preference) && durSpecOK(r.Lifetime) && 0 < durSpecVal(r.Lifetime, secs(86400)) && durSpecVal(r.Lifetime, secs(86400)) <= ndpInfinity && (r.Deprecated ==> durSpecVal(r.Lifetime, secs(86400)) != ndpInfinity)
+
+//@ func parseRoute
+//@   requires G1: sentinelsOK()
+//@   assigns new heap(plugin.Route)
+//@   ensures E1 [C02]: (result1 == nil) == routeAccept(r)
+//@   ensures E2 [C02]: result1 == nil ==> result0 != nil && fresh(result0) && result0.Prefix == routeOf(r.Prefix) && result0.Auto == (routeOf(r.Prefix) == autoRoute) && result0.Preference == ite(r.Preference == "low", 3, ite(r.Preference == "high", 1, 0)) && result0.Lifetime == durSpecVal(r.Lifetime, secs(86400)) && result0.Deprecated == r.Deprecated && result0.Epoch == epoch
+//@   ensures E3 [C03]: result1 == nil ==> lifetimeOK(result0.Lifetime) && prefValid(result0.Preference) && 0 <= pfxBits(result0.Prefix) && pfxValid(result0.Prefix)
+//@   ensures E4 [C02]: result1 != nil ==> result0 == nil
+//@   opt safety [C02]
+//@   opt frame [C02]
+
+// dnssl stanza (C02 D2): 0 <= lifetime <= infinite (default 3*max); names non-empty and pairwise distinct.
+//@ macro namesDistinct(ns) = forall(a, 0, len(ns), forall(b, a + 1, len(ns), ns[a] != ns[b]))
+//@ macro dnsslAccept(d, max) = durSpecOK(d.Lifetime) && 0 <= durSpecVal(d.Lifetime, 3 * max) && durSpecVal(d.Lifetime, 3 * max) <= ndpInfinity && len(d.DomainNames) > 0 && namesDistinct(d.DomainNames)
+
+//@ func parseDNSSL
+//@   requires P1: secs(4) <= maxInterval && maxInterval <= secs(1800)
+//@   assigns new heap(plugin.DNSSL), new key(MD_Int_S_empty), new key(MV_Int_S_empty)
+//@   loop 1 invariant L1 [C02]: 0 <= rangeindex + 1 && rangeindex + 1 <= len(d.DomainNames) && seen != nil && fresh(seen)
+//@   loop 1 invariant L2 [C02]: forall(j, 0, rangeindex + 1, has(seen, d.DomainNames[j])) && forall(q, "Int", has(seen, q) ==> exists(j, 0, rangeindex + 1, d.DomainNames[j] == q))
+//@   loop 1 invariant L3 [C02]: forall(a, 0, rangeindex + 1, forall(b, a + 1, rangeindex + 1, d.DomainNames[a] != d.DomainNames[b]))
+//@   ensures E1 [C02]: (result1 == nil) == dnsslAccept(d, maxInterval)
+//@   ensures E2 [C02]: result1 == nil ==> result0 != nil && fresh(result0) && result0.Lifetime == durSpecVal(d.Lifetime, 3 * maxInterval) && result0.DomainNames == d.DomainNames
+//@   ensures E3 [C03]: result1 == nil ==> lifetimeOK(result0.Lifetime)
+//@   ensures E4 [C02]: result1 != nil ==> result0 == nil
+//@   opt safety [C02]
+//@   opt frame [C02]
+
+// rdnss stanza (C02 D1, C14): 0 <= lifetime <= infinite; every server an IPv6,
+// non-IPv4-mapped address; at most one ::; the others pairwise distinct.
+//@ macro srvOK(s) = paOK(s) && addrIs6(paVal(s)) && !addrIs4In6(paVal(s))
+
+// parsePlugins: per-stanza parsers in the documented order (C01 carrier), range
+// checks (C02/C03), PREF64 prefix validation (C03).
+//@ macro epochOK(e) = e != timeZero && timeSane(e)
+//@ macro stage(ps, r) = forall(k, 0, len(ps), ps[k].tag != 0 && ps[k].val < brk && pluginCfgOK(ps[k]) && pluginRank(dyn(ps[k])) <= r) && forall(a, 0, len(ps), forall(b, a + 1, len(ps), pluginRank(dyn(ps[a])) <= pluginRank(dyn(ps[b]))))
+//@ macro pref64Len(b) = b == 96 || b == 64 || b == 56 || b == 48 || b == 40 || b == 32
+
+//@ func parseRDNSS$1
+//@   ensures R1 [C14]: result == addrCompare(a, b)
+//@   opt pure applyCmpAddr
+
+//@ func parsePlugins
+//@   requires G1: sentinelsOK() && epochOK(epoch) && secs(4) <= maxInterval && maxInterval <= secs(1800)
+//@   assigns new heap(plugin.Prefix), new heap(plugin.Route), new heap(plugin.RDNSS), new heap(plugin.DNSSL), new heap(plugin.MTU), new heap(plugin.LLA), new heap(plugin.CaptivePortal), new heap(plugin.PREF64), new heap(ndp.PREF64), new heap(ndp.CaptivePortal), new mem(*plugin.Prefix), new mem(*plugin.Route), new mem(plugin.Plugin), new mem(netip.Addr), new key(MD_Addr_S_empty), new key(MV_Addr_S_empty), new key(MD_Int_S_empty), new key(MV_Int_S_empty)
+//@   loop 1 invariant A1 [C01,C03]: 0 <= rangeindex + 1 && rangeindex + 1 <= len(ifi.Prefixes) && forall(k, 0, len(prefixes), prefixes[k] != nil && prefixes[k] < brk && prefixCfgOK(prefixes[k]))
+//@   loop 2 invariant A2 [C01,C03]: 0 <= rangeindex2 + 1 && rangeindex2 + 1 <= len(prefixes) && forall(k, 0, len(prefixes), prefixes[k] != nil && prefixes[k] < brk && prefixCfgOK(prefixes[k]))
+//@   loop 3 invariant A3 [C01,C03]: 0 <= rangeindex3 + 1 && rangeindex3 + 1 <= len(prefixes) && 0 <= rangeindex2 + 1 && rangeindex2 + 1 < len(prefixes) && forall(k, 0, len(prefixes), prefixes[k] != nil && prefixes[k] < brk && prefixCfgOK(prefixes[k]))
+//@   loop 4 invariant A4 [C01,C03]: 0 <= rangeindex4 + 1 && rangeindex4 + 1 <= len(prefixes) && forall(k, 0, len(prefixes), prefixes[k] != nil && prefixes[k] < brk && prefixCfgOK(prefixes[k])) && stage(plugins, 1)
+//@   loop 5 invariant A5 [C01,C03]: 0 <= rangeindex5 + 1 && rangeindex5 + 1 <= len(ifi.Routes) && stage(plugins, 1) && forall(k, 0, len(routes), routes[k] != nil && routes[k] < brk && routeCfgOK(routes[k]))
+//@   loop 6 invariant A6 [C01,C03]: 0 <= rangeindex6 + 1 && rangeindex6 + 1 <= len(routes) && stage(plugins, 1) && forall(k, 0, len(routes), routes[k] != nil && routes[k] < brk && routeCfgOK(routes[k]))
+//@   loop 7 invariant A7 [C01,C03]: 0 <= rangeindex7 + 1 && rangeindex7 + 1 <= len(routes) && 0 <= rangeindex6 + 1 && rangeindex6 + 1 < len(routes) && stage(plugins, 1) && forall(k, 0, len(routes), routes[k] != nil && routes[k] < brk && routeCfgOK(routes[k]))
+//@   loop 8 invariant A8 [C01,C03]: 0 <= rangeindex8 + 1 && rangeindex8 + 1 <= len(routes) && stage(plugins, 2) && forall(k, 0, len(routes), routes[k] != nil && routes[k] < brk && routeCfgOK(routes[k]))
+//@   loop 9 invariant A9 [C01,C03]: 0 <= rangeindex9 + 1 && rangeindex9 + 1 <= len(ifi.RDNSS) && stage(plugins, 3)
+//@   loop 10 invariant A10 [C01,C03]: 0 <= rangeindex10 + 1 && rangeindex10 + 1 <= len(ifi.DNSSL) && stage(plugins, 4)
+//@   loop 11 invariant A11 [C01,C03]: 0 <= rangeindex11 + 1 && rangeindex11 + 1 <= len(ifi.PREF64) && stage(plugins, 8) && 0 <= ifi.MTU && ifi.MTU <= 65536
+//@   at call NewPREF64(pp, pm): assert X1 [C02,C03]: pfxValid(pp) && addrIs6(pfxAddr(pp)) && !addrIs4In6(pfxAddr(pp)) && pfxMasked(pp) == pp && pref64Len(pfxBits(pp))
+//@   ensures E1 [C01,C03,C17]: result1 == nil ==> stage(result0, 8)
+//@   ensures E2 [C02]: result1 == nil ==> 0 <= ifi.MTU && ifi.MTU <= 65536 && (ifi.CaptivePortal == "" || captiveOK(ifi.CaptivePortal))
+//@   ensures E3 [C02]: result1 != nil ==> result0 == nil
+//@   opt safety [C02]
+//@   opt frame [C02]
+
+//@ func parseRDNSS
+//@   requires P1: secs(4) <= maxInterval && maxInterval <= secs(1800)
+//@   assigns new heap(plugin.RDNSS), new mem(netip.Addr), new key(MD_Addr_S_empty), new key(MV_Addr_S_empty)
+//@   loop 1 invariant L1 [C02,C14]: 0 <= rangeindex + 1 && rangeindex + 1 <= len(d.Servers) && servers != nil && fresh(servers) && forall(j, 0, rangeindex + 1, srvOK(d.Servers[j]))
+//@   loop 1 invariant L2 [C02,C14]: auto == exists(j, 0, rangeindex + 1, addrIsUnspecified(paVal(d.Servers[j]))) && forall(a, 0, rangeindex + 1, forall(b, a + 1, rangeindex + 1, !(addrIsUnspecified(paVal(d.Servers[a])) && addrIsUnspecified(paVal(d.Servers[b])))))
+//@   loop 1 invariant L3 [C02,C14]: forall(j, 0, rangeindex + 1, !addrIsUnspecified(paVal(d.Servers[j])) ==> has(servers, paVal(d.Servers[j]))) && forall(q, "Addr", has(servers, q) ==> exists(j, 0, rangeindex + 1, paVal(d.Servers[j]) == q && !addrIsUnspecified(q)))
+//@   loop 1 invariant L4 [C02]: forall(a, 0, rangeindex + 1, forall(b, a + 1, rangeindex + 1, !addrIsUnspecified(paVal(d.Servers[a])) && !addrIsUnspecified(paVal(d.Servers[b])) ==> paVal(d.Servers[a]) != paVal(d.Servers[b])))
+//@   loop 2 invariant M1 [C14]: (ips == nil || fresh(ips)) && forall(k, 0, len(ips), setHasAddr(visited(2), ips[k]) && has(servers, ips[k])) && forall(q, "Addr", setHasAddr(visited(2), q) ==> member(ips, q)) && forall(a, 0, len(ips), forall(b, a + 1, len(ips), ips[a] != ips[b])) && rangemap(2) == servers
+//@   ensures E1 [C02]: result1 == nil ==> durSpecOK(d.Lifetime) && 0 <= durSpecVal(d.Lifetime, 3 * maxInterval) && durSpecVal(d.Lifetime, 3 * maxInterval) <= ndpInfinity && forall(j, 0, len(d.Servers), srvOK(d.Servers[j]))
+//@   ensures E2 [C02,C14]: result1 == nil ==> result0 != nil && fresh(result0) && result0.Lifetime == durSpecVal(d.Lifetime, 3 * maxInterval) && result0.Auto == (len(d.Servers) == 0 || exists(j, 0, len(d.Servers), addrIsUnspecified(paVal(d.Servers[j]))))
+//@   ensures E3 [C03]: result1 == nil ==> lifetimeOK(result0.Lifetime)
+//@   ensures E4 [C14]: result1 == nil ==> forall(a, 0, len(result0.Servers), forall(b, a + 1, len(result0.Servers), addrCompare(result0.Servers[a], result0.Servers[b]) < 0))
+//@   ensures E5 [C14]: result1 == nil ==> forall(q, "Addr", member(result0.Servers, q) <==> exists(j, 0, len(d.Servers), paVal(d.Servers[j]) == q && !addrIsUnspecified(q)))
+//@   ensures E6 [C02]: result1 != nil ==> result0 == nil
+//@   opt safety [C02]
+//@   opt frame [C02]
